@@ -1729,6 +1729,17 @@ impl Context {
                 .get_template_source(parent_id)
                 .clone()
                 .unwrap();
+            if ast.body.is_none() {
+                // The template was declared but there is no definition to make the instance from
+                let location = self
+                    .module
+                    .function_registry
+                    .get_function_name_definition(new_id)
+                    .name
+                    .location;
+                self.current_scope = caller_scope_position;
+                return Err(TyperError::FunctionTemplateNotDefined(location));
+            }
             if self.template_instantiation_depth >= MAX_TEMPLATE_INSTANTIATION_DEPTH {
                 // A template that needs a new instance of itself each time never completes
                 let location = self
